@@ -33,3 +33,31 @@ M("C18", "new-pool-adds-from-defaults", "poolmanager.py",
 M("C18", "benign-rename-context-local", "poolmanager.py",
   "request_context = self._merge_pool_kwargs(pool_kwargs)\n        request_context[\"scheme\"] = scheme or \"http\"",
   "request_context = self._merge_pool_kwargs(pool_kwargs)\n        request_context[\"scheme\"] = (scheme or \"http\")", benign=True)
+
+# --------------------------------------------------------------------------- C01
+M("C01", "no-close-in-finally", "connectionpool.py",
+  "                if conn:\n                    conn.close()\n                    conn = None\n                release_this_conn = True",
+  "                if conn:\n                    conn = None\n                release_this_conn = True", rule="C01-R1")
+M("C01", "no-release-after-unclean-exit", "connectionpool.py",
+  "                    conn = None\n                release_this_conn = True\n", "                    conn = None\n", rule="C01-R1a")
+M("C01", "put-conn-no-close-on-full", "connectionpool.py",
+  "                # Connection never got put back into the pool, close it.\n                if conn:\n                    conn.close()\n\n                if self.block:",
+  "                if self.block:", rule="C01-R2")
+M("C01", "emptypool-handler-keeps-release", "connectionpool.py",
+  "            clean_exit = True\n            release_this_conn = False\n            raise", "            clean_exit = True\n            raise", rule="C01-R1b")
+M("C01", "clean-exit-set-before-request", "connectionpool.py",
+  "            response_conn = conn if not release_conn else None\n",
+  "            response_conn = conn if not release_conn else None\n            clean_exit = True\n", rule="C01-R1")
+M("C01", "timeout-resolved-inside-try-again", "connectionpool.py",
+  "        timeout_obj = self._get_timeout(timeout)\n\n        try:\n            # Request a connection from the queue.\n",
+  "        try:\n            # Request a connection from the queue.\n            timeout_obj = self._get_timeout(timeout)\n", rule="C01-R1b")
+M("C01", "get-conn-creates-when-blocking", "connectionpool.py",
+  "            if self.block:\n                raise EmptyPoolError(", "            if self.block and timeout:\n                raise EmptyPoolError(", rule="C01-R3")
+M("C01", "double-release-when-handed", "connectionpool.py",
+  "            response_conn = conn if not release_conn else None\n", "            response_conn = conn\n", rule="C01-R1")
+MUTANTS.append(dict(prop="C01", name="benign-rename-clean-exit", benign=True, rule=None, regex=True,
+                    edits=[("connectionpool.py", r"(?s)\A(.*)\Z", lambda mo: mo.group(1).replace("clean_exit", "ok_flag"))]))
+MUTANTS.append(dict(prop="C01", name="benign-extract-finally-helper", benign=True, rule=None, regex=False, edits=[
+    ("connectionpool.py", "                self._put_conn(conn)\n\n        if not conn:", "                self._give_back(conn)\n\n        if not conn:"),
+    ("connectionpool.py", "    def _validate_conn(self, conn: BaseHTTPConnection) -> None:\n", "    def _give_back(self, c):  # type: ignore[no-untyped-def]\n        self._put_conn(c)\n\n    def _validate_conn(self, conn: BaseHTTPConnection) -> None:\n"),
+]))
